@@ -6,9 +6,10 @@
      - `mt_confirm` (the debug assertions and the usize overflow of `ServerMutateTicks::confirm`).
    (1) `apply_mutations` NEVER panics: it calls `set_last_tick` only when `tick > last_tick` (wrapping comparison), and
        `>` implies `>=` for `Ord::cmp`.
-   (2) `confirm_tick`: a client-local invariant [cli W Phi c], indexed by a predicate [Phi] on ticks:
-         W <= cl_next c, every image of the entity map is a client entity >= W (the entities created since the last
-         reset), every confirm history of a client entity >= W has a last tick satisfying Phi.
+   (2) `confirm_tick`: a client-local invariant [cli W Phi c], indexed by a set [W] of client entities (the entities
+       of the current session: those created since the last reset, W cid := W0 <= cid) and a predicate [Phi] on ticks:
+         every client entity not yet created is in W, every image of the entity map is in W, every confirm history
+         of a client entity in W has a last tick satisfying Phi.
        An update message of tick T without pre-spawn mappings does not panic when Phi t -> t <= T < 2^31, and keeps the
        invariant when Phi T.  A mutate message of tick T keeps it when Phi T (or when the entity map is empty).
    (3) the tracker: the frame does not panic when the replay of `mt_confirm` over the messages the frame applies
@@ -57,12 +58,12 @@ Qed.
 (* 2. the invariant                                                   *)
 (* ================================================================== *)
 
-Definition sab (W : N) (c : client) : Prop := forall e cid, al_get e (cl_s2c c) = Some cid -> W <= cid.
-Definition hall (W : N) (Phi : N -> Prop) (c : client) : Prop :=
-  forall cid x h, W <= cid -> get_cent c cid = Some x -> ce_hist x = Some h -> Phi (h_last h).
+Definition sab (W : N -> Prop) (c : client) : Prop := forall e cid, al_get e (cl_s2c c) = Some cid -> W cid.
+Definition hall (W : N -> Prop) (Phi : N -> Prop) (c : client) : Prop :=
+  forall cid x h, W cid -> get_cent c cid = Some x -> ce_hist x = Some h -> Phi (h_last h).
 
-Record cli (W : N) (Phi : N -> Prop) (c : client) : Prop := mkCli2 {
-  cli_next : W <= cl_next c;
+Record cli (W : N -> Prop) (Phi : N -> Prop) (c : client) : Prop := mkCli2 {
+  cli_next : forall cid, cl_next c <= cid -> W cid;
   cli_sab : sab W c;
   cli_hall : hall W Phi c
 }.
@@ -78,9 +79,9 @@ Lemma cli_mono W (Phi Psi : N -> Prop) c : (forall t, Phi t -> Psi t) -> cli W P
 Proof. intros H [A B C]. constructor; [exact A|exact B|]. intros cid x h Hw Hx Hh. apply H. exact (C cid x h Hw Hx Hh). Qed.
 
 (* a client with an empty entity map: every later watermark works *)
-Lemma cli_fresh Phi c : cl_s2c c = [] -> ents_fresh c -> cli (cl_next c) Phi c.
+Lemma cli_fresh Phi c : cl_s2c c = [] -> ents_fresh c -> cli (fun cid => cl_next c <= cid) Phi c.
 Proof.
-  intros Hs Hf. constructor; [lia| |].
+  intros Hs Hf. constructor; [auto| |].
   - intros e cid. rewrite Hs. discriminate.
   - intros cid x h Hw Hx. rewrite (Hf cid Hw) in Hx. discriminate.
 Qed.
@@ -95,8 +96,8 @@ Qed.
 Lemma cli_spawn_vacant W Phi c t p m : cli W Phi c -> cli W Phi (emap_vacant_insert (fst (spawn_cent c p m)) t (cl_next c)).
 Proof.
   intros [A B C]. constructor.
-  - cbn. lia.
-  - intros e cid. cbn. rewrite al_get_insert. destruct (e =? t); [intros E; inversion E; subst; exact A|apply B].
+  - intros cid H. apply A. cbn in H. lia.
+  - intros e cid. cbn. rewrite al_get_insert. destruct (e =? t); [intros E; inversion E; subst; apply A; apply N.le_refl|apply B].
   - intros cid x h Hw Hx Hh. unfold get_cent in Hx. cbn in Hx. apply al_get_snoc in Hx.
     destruct Hx as [Hx|(_ & _ & ->)]; [exact (C cid x h Hw Hx Hh)|discriminate].
 Qed.
@@ -104,17 +105,17 @@ Qed.
 Lemma cli_spawn W Phi c p m : cli W Phi c -> cli W Phi (fst (spawn_cent c p m)).
 Proof.
   intros [A B C]. constructor.
-  - cbn. lia.
+  - intros cid H. apply A. cbn in H. lia.
   - exact B.
   - intros cid x h Hw Hx Hh. unfold get_cent in Hx. cbn in Hx. apply al_get_snoc in Hx.
     destruct Hx as [Hx|(_ & _ & ->)]; [exact (C cid x h Hw Hx Hh)|discriminate].
 Qed.
 
-Lemma cli_entry W Phi c e c1 cid : cli W Phi c -> entry_entity c e = Some (c1, cid) -> cli W Phi c1 /\ W <= cid.
+Lemma cli_entry W Phi c e c1 cid : cli W Phi c -> entry_entity c e = Some (c1, cid) -> cli W Phi c1 /\ W cid.
 Proof.
   intros Hp. unfold entry_entity. destruct (al_get e (cl_s2c c)) as [cid0|] eqn:E.
   - destruct (alive c cid0); [|discriminate]. intros H; inversion H; subst. split; [exact Hp|exact (cli_sab _ _ _ Hp e cid E)].
-  - intros H. cbn in H. inversion H; subst. split; [exact (cli_spawn_vacant W Phi c e None true Hp)|exact (cli_next _ _ _ Hp)].
+  - intros H. cbn in H. inversion H; subst. split; [exact (cli_spawn_vacant W Phi c e None true Hp)|apply (cli_next _ _ _ Hp); apply N.le_refl].
 Qed.
 
 Lemma cli_map_value W Phi c v : cli W Phi c -> cli W Phi (fst (map_value c v)).
@@ -123,14 +124,14 @@ Proof.
   exact (cli_spawn_vacant W Phi c t None false Hp).
 Qed.
 
-Lemma cli_write_one W Phi cid c kv : W <= cid -> cli W Phi c -> cli W Phi (write_one cid c kv).
+Lemma cli_write_one (W : N -> Prop) Phi cid c kv : W cid -> cli W Phi c -> cli W Phi (write_one cid c kv).
 Proof.
   intros Hw Hp. rewrite write_one_eq. pose proof (cli_map_value W Phi c (snd kv) Hp) as H.
   destruct (get_cent _ cid) as [x|] eqn:E; [|exact H]. apply cli_set_cent; [exact H|]. cbn. intros h Hh.
   exact (cli_hall _ _ _ H cid x h Hw E Hh).
 Qed.
 
-Lemma cli_write_comps W Phi c cid comps : W <= cid -> cli W Phi c -> cli W Phi (write_comps c cid comps).
+Lemma cli_write_comps (W : N -> Prop) Phi c cid comps : W cid -> cli W Phi c -> cli W Phi (write_comps c cid comps).
 Proof. intros Hw. rewrite write_comps_fold. apply Client_proofs.fold_left_inv. intros; apply cli_write_one; assumption. Qed.
 
 Lemma cli_despawn W Phi c s : cli W Phi c -> cli W Phi (apply_despawn c s).
@@ -160,7 +161,7 @@ Proof.
 Qed.
 
 Section Update.
-  Variables (W : N) (Phi : N -> Prop) (T : N).
+  Variables (W : N -> Prop) (Phi : N -> Prop) (T : N).
   Hypothesis Hle : forall t, Phi t -> t <= T.
   Hypothesis HT : T < 2 ^ 31.
   Hypothesis HPT : Phi T.
